@@ -19,6 +19,9 @@ RULE = ("Hypothesis constructs scripts whose statements take polynomial/rational
         "discarded and counted. Each shard runs in its own interpreter with a different PYTHONHASHSEED because the order of the "
         "listed registers is hash dependent. Non-trivial = an argument with >=2 distinct registers, or a register expression in "
         "keyword position. Distinct = SHA-1 of script text.")
+RULE += (" Sample points include integer photon numbers (small, large and close together, squares beyond 53 bits), passed as "
+         "Python ints; a quarter of the scripts carries an integer formula whose terms nearly cancel there (q0**3 - q12**3). A third of "
+         "the float variables of a script hold register expressions themselves (float fb = 0.5*q0 - q12/4).")
 ASSUMPTIONS = ["reference interpreter", "measurement values are generic reals away from poles"]
 BUDGET = {"quick": (1600, 4), "thorough": (32000, 16)}
 
@@ -66,6 +69,21 @@ def case(draw, tier):
                 e = A.Flat([A.Operand("", A.Num("int", "1")), b, k], ["/", "**"])             # 1/r**1 / 1/r**2
             pair.append(A.Stmt("Twin", A.Args([e], [], False), [S.F1(A.Num("int", "0"))], "", ""))
         sc.items.extend(pair)
+    if draw(st.integers(0, 3)) == 0:
+        # integer formulas whose terms nearly cancel at large, close photon numbers (exact in integer arithmetic)
+        r1 = draw(st.integers(0, 9)); r2 = draw(st.integers(10, 300))
+        a, b = A.Operand("", A.Reg("q%d" % r1)), A.Operand("", A.Reg("q%d" % r2))
+        n = lambda t: A.Operand("", A.Num("int", t))
+        K_ = n(draw(st.sampled_from(["9007199254740993", "4503599627370497", "3"])))
+        e = draw(st.sampled_from([
+            A.Flat([a, n("3"), b, n("3")], ["**", "-", "**"]),
+            A.Flat([a, n("2"), b, n("2")], ["**", "-", "**"]),
+            A.Flat([a, a, b, b], ["*", "-", "*"]),
+            A.Flat([a, n("3"), a, b, b], ["**", "-", "*", "*"]),
+            A.Flat([K_, a, K_, b], ["*", "-", "*"]),
+            A.Flat([b, b, b, a, a, a, n("1")], ["*", "*", "-", "*", "*", "+"])]))
+        args = A.Args([e], [], False) if draw(st.booleans()) else A.Args([], [["n", e]], False)
+        sc.items.append(A.Stmt("Counts", args, [S.F1(A.Num("int", "0"))], "", ""))
     return {"script": sc, "layout": draw(K.layout_light())}
 
 
